@@ -218,7 +218,7 @@ fn exec<D: Doc>(p: &PrepDocLite<D>, rows: &[TagRow], w: &[Option<Vec<u64>>], tag
 }
 
 pub fn n_values(tier: Tier) -> u64 {
-    values_per_doc(tier, 40, 400)
+    values_per_doc(tier, 40, 3000)
 }
 pub fn n_units(tier: Tier) -> u64 {
     ALL_DOCS.len() as u64 * n_values(tier)
